@@ -175,6 +175,10 @@ class Parser:
             else:
                 raise Exception(f"Internal Parser Exception: {top}")
 
+    def flush_pending_actions(self):
+        while len(self.stack) > 0 and isinstance(self.stack[-1], Action):
+            self.action_function(self.stack.pop())
+
     def pop_symbol(self):
         return self.stack.pop()
 
